@@ -1,4 +1,4 @@
-import GnoVerif.Proofs.C30Wf
+import GnoVerif.Proofs.C30Hash
 import GnoVerif.Proofs.C30Proof
 /-!
 # C30 — the IAVL tree is a correct versioned, provable map
@@ -28,8 +28,8 @@ What is a theorem here, clause by clause:
   retained version intact is carried by the correspondence run and the oracle only.
 * **the root hash is a function of contents and history** — true by construction in
   the model (`Node.hash` is a function of the tree, the tree a function of the
-  history); `save_returns_root_hash` / `reopen_keeps_database` state the parts that
-  are not definitional.  Independence of cache size, flush threshold, fast-node index
+  history); `save_hash_is_working_hash`, `stored_hash_function_of_tree`,
+  `save_returns_root_hash`, `reopen_keeps_database` state the parts that are not definitional.  Independence of cache size, flush threshold, fast-node index
   and restarts is established by correspondence (shadow tree) only.
 * **proofs verify only for the true answer** — `membership_proof_complete` (the proof of
   a present key names key and value and ICS23's `Calculate` maps it to the root hash,
@@ -222,8 +222,19 @@ theorem history_wf (H : Bytes → Bytes) (iv : Int) (ops : List Op) :
     let s := St.run H (St.init iv) ops
     WFo s.root ∧ WFo s.lsRoot ∧ ∀ v r, s.getImmutable v = .ok r → WFo r := by
   intro s
-  have hw := St.run_wf H (St.init iv) ops (St.init_allWF iv)
-  exact ⟨hw.2.2.1, hw.2.2.2, fun v r h => DB.getRoot_wf hw.1 h⟩
+  have hw := St.run_holds (I := St.wfInv) H (St.init iv) ops (St.init_holds _ iv)
+  exact ⟨hw.2.2.1, hw.2.2.2, fun v r h => DB.getRoot_P (I := St.wfInv) hw.1 h⟩
+
+/-- After every history, every stored version consists of saved nodes only (so its root hash
+does not depend on anything but the stored tree), and in the working tree a saved node has
+only saved descendants (what `saveNewNodes` relies on when it stops at the first node that
+has a node key). -/
+theorem history_saved (H : Bytes → Bytes) (iv : Int) (ops : List Op) :
+    let s := St.run H (St.init iv) ops
+    Node.Closedo s.root ∧ AllSavedo s.lsRoot ∧ ∀ v r, s.getImmutable v = .ok r → AllSavedo r := by
+  intro s
+  have hw := St.run_holds (I := St.savedInv) H (St.init iv) ops (St.init_holds _ iv)
+  exact ⟨hw.2.2.1, hw.2.2.2, fun v r h => DB.getRoot_P (I := St.savedInv) hw.1 h⟩
 
 /-! ## saved versions are immutable -/
 
@@ -287,7 +298,7 @@ theorem save_new_version (H : Bytes → Bytes) (s : St) (hw : WFo s.root)
       (s.saveVersion H).2.pend = none := by
   rcases St.saveVersion_cases H s with ⟨h, -⟩ | ⟨-, h1, h2, h3, h4, h5⟩
   · rw [hex] at h; cases h
-  · refine ⟨s.savedRoot, h5, ?_, St.savedRoot_abs s, St.savedRoot_wf hw, h3, h4, h2⟩
+  · refine ⟨s.savedRoot, h5, ?_, St.savedRoot_abs s, St.savedRoot_P (I := St.wfInv) hw, h3, h4, h2⟩
     simp only [St.getImmutable, h1, DB.getRoot_setRoot_self]
 
 /-- the hash `SaveVersion` returns is the hash of the stored version (`ihash`) -/
@@ -332,12 +343,29 @@ theorem rollback_restores (s : St) :
 
 /-- closing the tree and opening the database again changes nothing in the database: every
 version reads the same tree, hence has the same root hash -/
-theorem reopen_keeps_database (H : Bytes → Bytes) (s : St) (v : Int) :
-    s.reopen.2.getImmutable v = s.getImmutable v ∧
-    (∀ r, s.getImmutable v = .ok r →
-      St.rootHash H (v + 1) r = St.rootHash H (v + 1) r) := by
-  refine ⟨?_, fun _ _ => rfl⟩
+theorem reopen_keeps_database (s : St) (v : Int) : s.reopen.2.getImmutable v = s.getImmutable v := by
   simp only [St.getImmutable, (St.reopen_frame s).1]
+
+/-! ## root hashes -/
+
+/-- The hash `SaveVersion` returns for a new version is the hash `WorkingHash` reported for the
+working tree just before (the model computes hashes on demand; the code caches them in the
+nodes — this is the statement that the cache cannot be stale), given that saved nodes of the
+working tree have only saved descendants, which holds after every history (`history_saved`). -/
+theorem save_hash_is_working_hash (H : Bytes → Bytes) (s : St) (hc : Node.Closedo s.root)
+    (hex : (s.versionExists s.workingVersion).1 = false) :
+    (s.saveVersion H).1 = .ok (s.workingHash H, s.workingVersion) := by
+  rcases St.saveVersion_cases H s with ⟨h, -⟩ | ⟨-, -, -, -, -, h5⟩
+  · rw [hex] at h; cases h
+  · rw [h5, St.savedRoot_hash H s hc]
+
+/-- the root hash of a stored version is a function of the stored tree alone: the version number
+it is asked with (`t.version + 1` in `ImmutableTree.Hash`) is irrelevant, because a stored tree
+has no unsaved node -/
+theorem stored_hash_function_of_tree (H : Bytes → Bytes) (iv : Int) (ops : List Op) (v : Int) (r : Option Node)
+    (hr : (St.run H (St.init iv) ops).getImmutable v = .ok r) (wv wv' : Int) :
+    St.rootHash H wv r = St.rootHash H wv' r :=
+  St.rootHash_allSaved H ((history_saved H iv ops).2.2 v r hr) wv wv'
 
 /-! ## proofs -/
 
